@@ -94,11 +94,11 @@ class UnimodalPdf(DensityEstimator):
 
     @staticmethod
     def sample_moments(samples: ndarray) -> tuple[float, float, float]:
+        # central moments: raw power moments lose all precision for data far from zero
         mu = mean(samples)
-        x2 = samples**2
-        x3 = x2 * samples
-        sig = sqrt(mean(x2) - mu**2)
-        skew = (mean(x3) - 3 * mu * sig**2 - mu**3) / sig**3
+        dx = samples - mu
+        sig = sqrt(mean(dx**2))
+        skew = mean(dx**3) / sig**3
         return mu, sig, skew
 
     def __call__(self, x: ndarray) -> ndarray:
@@ -164,7 +164,8 @@ class UnimodalPdf(DensityEstimator):
         x = linspace(lwr, upr, 1000)
         p = self(x)
 
-        mu = simpson(p * x, x=x)
+        # integrate about the mode so the result is unaffected by the location of the data
+        mu = self.mode + simpson(p * (x - self.mode), x=x)
         var = simpson(p * (x - mu) ** 2, x=x)
         skw = simpson(p * (x - mu) ** 3, x=x) / var**1.5
         kur = (simpson(p * (x - mu) ** 4, x=x) / var**2) - 3.0
